@@ -8,8 +8,8 @@ import Mathlib.Tactic.NormNum
   satisfiable: `ValReading` over `NV ℚ`, and `PNInput` (hence `Arith`, the `_distance` hypothesis, the target
   hypothesis) for a 1 × 2 raster over `NV ℝ` with `sqrt = Real.sqrt`, Euclidean `_distance`, `max_distance = 2`.
 -/
-namespace XrsVerif.IL.Witness
-open XrsVerif XrsVerif.Prox XrsVerif.IL
+namespace XrsVerif.IL.Px.Witness
+open XrsVerif XrsVerif.Prox XrsVerif.IL XrsVerif.IL.Px
 
 /-! ### a reading of `NV ℚ` as raster values -/
 
@@ -99,4 +99,4 @@ theorem wInput : PNInput wc wemb wtg ws0 := by
     have hp : p = 0 ∨ p = 1 := by omega
     rcases hp with rfl | rfl <;> simp [targetTest, ws0, wc, wtg]
 
-end XrsVerif.IL.Witness
+end XrsVerif.IL.Px.Witness
